@@ -37,6 +37,8 @@ class Ctx:
         with open(os.path.join(ROOT, 'known_findings.json')) as fh:
             self.known = json.load(fh)['findings']
         self._build = None
+        import shutil
+        shutil.rmtree(os.path.join(ROOT, 'replays', pid), ignore_errors=True)
 
     # ------------------------------------------------------------------ logging
     def log(self, *a):
@@ -52,7 +54,7 @@ class Ctx:
         return self._build
 
     # ------------------------------------------------------------------ Lean
-    def lean_build(self, modules):
+    def lean_build(self, modules, drivers=('Prof',)):
         """`lake build` the given modules (after the translator has refreshed Generated/).
         Returns {module: (ok, message)}."""
         res = {}
@@ -64,9 +66,13 @@ class Ctx:
             for m in modules:
                 rc, out, err = run_cmd(['lake', 'build', m], cwd=LEAN_DIR, timeout=3000)
                 res[m] = (rc == 0, (out + err)[-6000:])
-            # the driver's imports must be built too
-            rc, out, err = run_cmd(['lake', 'build', 'LPVerif.Driver.All'], cwd=LEAN_DIR, timeout=3000)
-            res['LPVerif.Driver.All'] = (rc == 0, (out + err)[-6000:])
+            # the drivers' imports must be built too
+            ok, msg = True, ''
+            for d in tuple(drivers) + ('Loop',):
+                rc, out, err = run_cmd(['lake', 'build', 'LPVerif.Driver.' + d], cwd=LEAN_DIR, timeout=3000)
+                ok = ok and rc == 0
+                msg += (out + err)[-3000:] if rc else ''
+            res['drivers'] = (ok, msg)
         return res
 
     def theorems_in(self, relpath):
@@ -94,16 +100,16 @@ class Ctx:
                         bad.append('%s:%d: %s' % (os.path.relpath(p, LEAN_DIR), i, line.strip()))
         return bad
 
-    def prove(self, module, props_file, extra_modules=()):
+    def prove(self, module, props_file, extra_modules=(), drivers=('Prof',)):
         """Build the property module, audit its theorems' axioms. Fills self.obligations / self.broken."""
         mods = list(extra_modules) + [module]
-        res = self.lean_build(mods)
+        res = self.lean_build(mods, drivers)
         names = self.theorems_in(props_file)
         ok_mod = all(res[m][0] for m in mods)
-        driver_ok = res['LPVerif.Driver.All'][0]
+        driver_ok = res['drivers'][0]
         self.driver_ok = driver_ok
         if not driver_ok:
-            self.broken.append(('driver', 'LPVerif.Driver.All does not build: ' + res['LPVerif.Driver.All'][1][-1500:]))
+            self.broken.append(('driver', 'model driver does not build: ' + res['drivers'][1][-1500:]))
         bad_src = self.audit_sources()
         if bad_src:
             self.broken.append(('source-audit', 'forbidden token: ' + '; '.join(bad_src[:5])))
